@@ -979,7 +979,16 @@ pub fn frontends_check(w: &LspWorld, u: &UriSpec, text: &str) -> Result<Option<(
     if let Some(lang) = lang {
       for d in &w.project.rule_dirs {
         for f in &d.files {
-          let usable = !f.docs.is_empty() && f.docs.iter().all(|r| r.language == lang && r.files.is_none() && r.ignores.is_none() && r.severity.as_deref() != Some("off") && !r.rule.contains("matches: g-") );
+          // `scan -r FILE` knows no global utilities: leave out rule files that need one
+          let globals: Vec<String> = w.project.util_dirs.iter().flat_map(|d| d.files.iter().flat_map(|f| f.docs.iter().map(|r| r.id.clone()))).collect();
+          let needs_global = |r: &crate::rules::RuleSpec| {
+            let mut text = r.rule.clone();
+            for (_, u) in &r.utils {
+              text.push_str(u);
+            }
+            globals.iter().any(|g| text.contains(&format!("matches: {g}\n")))
+          };
+          let usable = !f.docs.is_empty() && f.docs.iter().all(|r| r.language == lang && r.files.is_none() && r.ignores.is_none() && r.severity.as_deref() != Some("off") && !needs_global(r));
           if !usable {
             continue;
           }
